@@ -2,6 +2,7 @@ package props
 
 import (
 	"bytes"
+	"encoding/base64"
 	"encoding/binary"
 	"errors"
 	"fmt"
@@ -1027,6 +1028,63 @@ func c10Streams(c *xplor.Ctx) {
 	c.Outcome(fmt.Sprintf("stream ok=%v", pr.OK()))
 }
 
+// c10RestDownload: a REST client of a server-streaming method whose responses are
+// google.api.HttpBody chunks (response_body names the field): every chunk fits the limit in
+// every representation, their sum does not. The limit is per message.
+func c10RestDownload(c *xplor.Ctx) {
+	targets := []wire.Form{wire.GRPC, wire.GRPCWeb, wire.ConnectStream}
+	tg := targets[c.Free("target", len(targets))]
+	tcodec := []string{"proto", "json"}[c.Free("target-codec", 2)]
+	L := []int{512, 2048}[c.Free("limit", 2)]
+	n := []int{1, 3, 6}[c.Free("chunks", 3)]
+	c.Attr("client", "rest")
+	c.Attr("class", "rest-download-of-several-chunks")
+	c.Attr("target", tg.String()+"/"+tcodec)
+	c.Attr("~limit", fmt.Sprint(L))
+	chunk := bytes.Repeat([]byte("0123456789abcdef"), L*2/5/16) // 40% of L: its JSON form (base64) stays below L
+	acct := newC10Acct()
+	be := &world.Backend{}
+	be.Respond = func(b *world.Backend, r *http.Request) *world.Reply {
+		acct.c10Stats = &acct.resp
+		var out [][]byte
+		for i := 0; i < n; i++ {
+			out = append(out, Enc(b.Parsed.Codec, MkMsg(`{"body":{"contentType":"application/octet-stream","data":"`+base64.StdEncoding.EncodeToString(chunk)+`"}}`)))
+		}
+		return world.EchoReply(b.Parsed, out, "", nil)
+	}
+	tc, err := world.Build(world.Config{Protocols: []vanguard.Protocol{world.FormToProtocol(tg)}, Codecs: []string{tcodec}, NoCompress: true, MaxMsg: uint32(L), TOpts: c10Options(acct)}, be)
+	if err != nil {
+		c.Fail("harness.setup", "%v", err)
+		return
+	}
+	ex, err := world.Do(tc, &drive.ReqSpec{Method: "GET", Target: "/v1/down/d1", Header: http.Header{}, ContentLength: -1, NoBody: true})
+	if err != nil {
+		c.Fail("harness.setup", "%v", err)
+		return
+	}
+	if ex.Panic != nil {
+		c.Fail("C10.panic", "%s %s", ex.Panic.Value, stackTop(ex.Panic.Stack))
+		return
+	}
+	biggest := acct.resp.marshalMax
+	if acct.resp.unmarshalMax > biggest {
+		biggest = acct.resp.unmarshalMax
+	}
+	c.Attr("~seams", fmt.Sprintf("chunks=%d of %d bytes, largest representation seen=%d, client status=%d body=%d bytes", n, len(chunk), biggest, ex.Rec.Status, ex.Rec.BodyBytes.Len()))
+	c.AddEvaluations(1)
+	c.Nontrivial(fmt.Sprintf("download|%s|%s|%d|%d", tg, tcodec, L, n))
+	if biggest > L {
+		c.Fail("harness.setup", "a chunk has a representation of %d bytes, above the limit %d", biggest, L)
+		return
+	}
+	if ex.Rec.Status != 200 {
+		c.Fail("C10.rejected-although-fits", "a download of %d chunks of %d bytes each (every representation <= %d, limit %d) failed: HTTP %d %s", n, len(chunk), biggest, L, ex.Rec.Status, short(ex.Rec.BodyBytes.String()))
+	} else if !bytes.Equal(ex.Rec.BodyBytes.Bytes(), bytes.Repeat(chunk, n)) {
+		c.Fail("C10.lost", "the download succeeded but the client received %d bytes instead of the %d chunks of %d bytes", ex.Rec.BodyBytes.Len(), n, len(chunk))
+	}
+	c.Outcome(fmt.Sprintf("download status=%d", ex.Rec.Status))
+}
+
 func init() {
 	Register(&Check{
 		ID:    "C10",
@@ -1039,6 +1097,7 @@ func init() {
 			{Name: "limit-thorough", Fn: c10Scenario(true), QuickBound: -1, ThoroughBound: 0},
 			{Name: "errors", Fn: c10Errors, QuickBound: 0, ThoroughBound: 0},
 			{Name: "streams", Fn: c10Streams, QuickBound: 0, ThoroughBound: 0},
+			{Name: "rest-download", Fn: c10RestDownload, QuickBound: 0, ThoroughBound: 0},
 		},
 	})
 }
